@@ -51,7 +51,7 @@ def parked (s : St) : List String :=
     | .c1 => [s!"C1:c{n}"] | .w1 => [s!"W1:c{n}"] | .wr => [s!"WR:c{n}"] | .w2 _ => [s!"W2:c{n}"]
     | .r _ => [s!"R:c{n}"] | .rc => [s!"R:c{n}"] | _ => []
   let us := (s.unotifs.zipIdx 0).flatMap fun (nf, k) => notifParked (.unotif k) nf
-  let xs := s.cnotifs.flatMap fun (n, nf) => notifParked (.cnotif n) nf
+  let xs := s.cnotifs.flatMap fun nf => notifParked (.cnotif (nf.cancelFor.getD 0)) nf
   let rs := (s.cores.zipIdx 0).flatMap fun (q, r) =>
     match q.pc with
     | .a1 => [s!"A1:r{r}"] | .a2 => [s!"A2:r{r}"] | .running => [s!"H:r{r}"] | .p1 => [s!"P1:r{r}"]
@@ -142,7 +142,7 @@ def allFinished (s : St) : Bool :=
   s.done && !s.panicked && parked s == [] &&
   s.calls.all (fun c => c.pc == .fin) &&
   s.unotifs.all (fun n => match n.pc with | .fin _ => true | _ => false) &&
-  s.cnotifs.all (fun p => match p.2.pc with | .fin _ => true | _ => false) &&
+  s.cnotifs.all (fun p => match p.pc with | .fin _ => true | _ => false) &&
   s.closeCl1 == 0 && s.closeWaiting == 0 && s.closeWt == 0 && s.waitWaiting == 0 && s.waitWt == 0
 
 /-! ## Monitors: C01–C05 as predicates on what the IMPLEMENTATION did
@@ -410,6 +410,14 @@ def engine : Engine DState where
         match d.st with
         | none => ({ d with mon := mon' }, { model := "disabled", violated := viol })
         | some s =>
+          -- the harness names a detached cancel notification by its call (x<n>); the model by creation index
+          let fixW : Who → Who := fun w => match w with
+            | .cnotif n => .cnotif ((s.cnotifs.findIdx? (fun nf => nf.cancelFor == some n)).getD s.cnotifs.length)
+            | w => w
+          let l := match l with
+            | .n1 w => .n1 (fixW w) | .n2 w => .n2 (fixW w) | .w1 w => .w1 (fixW w) | .w2 w => .w2 (fixW w)
+            | .wret w o => .wret (fixW w) o
+            | l => l
           match step s l with
           | none => ({ st := none, mon := mon' }, { model := "disabled", violated := viol })
           | some s' => ({ st := some s', mon := mon' }, { model := observe s', violated := viol })
